@@ -51,12 +51,21 @@ fn field_name_c15(rng: &mut Rng) -> String {
 }
 
 fn variant_name(rng: &mut Rng) -> String {
-    const POOL: &[&str] = &["active", "inactive", "fooBar", "foo_bar", "IPv6", "x1", "OK", "notOK", "a", "B", "http2", "type", "match", "snake_case_name", "camelCaseName", "PascalCase", "v4"];
+    const POOL: &[&str] = &["active", "inactive", "fooBar", "foo_bar", "IPv6", "x1", "OK", "notOK", "a", "B", "http2", "type", "match", "snake_case_name", "camelCaseName", "PascalCase", "v4", "x86_64", "utf_8", "utf_16_le", "v1_2", "riscv_64", "a_1b", "Abc_9"];
     let mut s = rng.pick(POOL).to_string();
     if rng.chance(1, 5) {
         s.push_str(&rng.below(10).to_string());
     }
     s
+}
+
+/// IDL comments (codegen turns them into doc comments that sit next to generated attributes).
+fn cm(rng: &mut Rng) -> Vec<String> {
+    if rng.chance(1, 3) {
+        (0..rng.range(1, 2)).map(|_| rng.pick(&["Returns the thing.", "", "Note: x > 0", "deprecated", "See `Other`"]).to_string()).collect()
+    } else {
+        vec![]
+    }
 }
 
 fn unique(rng: &mut Rng, used: &mut HashSet<String>, conv: fn(&str) -> String, f: fn(&mut Rng) -> String) -> String {
@@ -114,7 +123,7 @@ fn fields15(rng: &mut Rng, n: usize, customs: &[String]) -> Vec<GField> {
     (0..n)
         .map(|_| {
             let depth = rng.below(3);
-            GField { name: unique(rng, &mut used, snake, field_name_c15), comments: vec![], ty: gen_ty15(rng, depth, customs, true, true) }
+            GField { name: unique(rng, &mut used, snake, field_name_c15), comments: cm(rng), ty: gen_ty15(rng, depth, customs, true, true) }
         })
         .collect()
 }
@@ -135,10 +144,11 @@ fn gen_iface15(rng: &mut Rng, k: usize) -> GIface {
         if rng.chance(1, 3) {
             let mut used = HashSet::new();
             let nv = rng.range(1, 5);
-            members.push(GMember::Type { name: n.clone(), comments: vec![], body: GBody::Enum((0..nv).map(|_| GVariant { name: unique(rng, &mut used, pascal, variant_name), comments: vec![] }).collect()) });
+            // (no comments on variants: an enum with a commented variant renders without commas - the C14 known finding)
+            members.push(GMember::Type { name: n.clone(), comments: cm(rng), body: GBody::Enum((0..nv).map(|_| GVariant { name: unique(rng, &mut used, pascal, variant_name), comments: vec![] }).collect()) });
         } else {
             let nf = rng.range(1, 4);
-            members.push(GMember::Type { name: n.clone(), comments: vec![], body: GBody::Struct(fields15(rng, nf, &customs)) });
+            members.push(GMember::Type { name: n.clone(), comments: cm(rng), body: GBody::Struct(fields15(rng, nf, &customs)) });
         }
         customs.push(n);
     }
@@ -156,16 +166,16 @@ fn gen_iface15(rng: &mut Rng, k: usize) -> GIface {
             }
         };
         let (ni, no) = (rng.below(4), rng.below(3));
-        members.push(GMember::Method { name: n, comments: vec![], inputs: fields15(rng, ni, &customs), outputs: fields15(rng, no, &customs) });
+        members.push(GMember::Method { name: n, comments: cm(rng), inputs: fields15(rng, ni, &customs), outputs: fields15(rng, no, &customs) });
     }
     let nerr = rng.below(3);
     let mut err_names: HashSet<String> = HashSet::new();
     for _ in 0..nerr {
         let n = unique(rng, &mut err_names, pascal, member_name);
         let nf = rng.below(3);
-        members.push(GMember::Error { name: n, comments: vec![], fields: fields15(rng, nf, &customs) });
+        members.push(GMember::Error { name: n, comments: cm(rng), fields: fields15(rng, nf, &customs) });
     }
-    GIface { name, comments: vec![], members }
+    GIface { name, comments: cm(rng), members }
 }
 
 // ---- emitting descriptors -----------------------------------------------------------------------
